@@ -92,6 +92,9 @@ ActParses(a) == a # "AUNKNOWN"
 ProtoNames  == {"IBC", "CCTP", "HYP", "INT"}
 ActionNames == {"FEE", "SWAP"}
 
+CpUniverse == [p \in ProtoNames |-> CASE p = "CCTP" -> {"0", "1", "2"} [] p = "HYP" -> {"1", "2", "3"}
+                                        [] p = "INT" -> {"noble"} [] OTHER -> {"channel-0", "channel-1"}]
+
 Digits == {"0", "1", "2", "3", "4", "5", "6", "7", "8", "9"}
 U32Max == <<"4", "2", "9", "4", "9", "6", "7", "2", "9", "5">>
 
@@ -112,8 +115,7 @@ ChanPrefix == <<"c", "h", "a", "n", "n", "e", "l", "-">>
 IsChannelId(cs) == /\ Len(cs) > 8 /\ SubSeq(cs, 1, 8) = ChanPrefix
                    /\ LET n == SubSeq(cs, 9, Len(cs)) IN
                         /\ \A i \in DOMAIN n : n[i] \in Digits
-                        /\ (Len(n) > 1 => n[1] # "0")
-                        /\ Len(n) <= 19
+                        /\ Len(n) <= 20          \* ibc-go: ^channel-[0-9]{1,20}$ (leading zeros are legal)
 
 \* the design's validity of a counterparty id (cs = its characters) for a protocol
 ValidCp(pid, cs) == /\ Len(cs) \in 1..32
@@ -547,6 +549,33 @@ EnvStep(s, in) ==
     [] in.op = "cctpUnpause" -> Res(TRUE, "", [s EXCEPT !.env.cctpPaused = FALSE], NoReq)
     [] OTHER -> Res(FALSE, "env", s, NoReq)
 
+-----------------------------------------------------------------------------
+(* Genesis documents (C17): which documents validation accepts, and what they initialise to *)
+
+NoRepeats(seq) == \A i, j \in DOMAIN seq : i # j => seq[i] # seq[j]
+\* statistics entries of the document grid use the test-bed's counterparties only
+StatIdValid(p, c) == p \in ProtoNames /\ (p = "INT" \/ c \in CpUniverse[p])
+GenValid(g) ==
+  /\ \A i \in DOMAIN g.pp : g.pp[i] \in ProtoNames
+  /\ NoRepeats(g.pp)                                     \* a repeated entry cannot be initialised
+  /\ \A i \in DOMAIN g.pcc : g.pcc[i].p \in ProtoNames /\ ValidCp(g.pcc[i].p, g.pcc[i].chars)
+  /\ NoRepeats([i \in DOMAIN g.pcc |-> <<g.pcc[i].p, g.pcc[i].cp>>])
+  /\ \A i \in DOMAIN g.pa : g.pa[i] \in ActionNames
+  /\ NoRepeats(g.pa)
+  /\ \A i \in DOMAIN g.amts : LET a == g.amts[i] IN
+        a.denom # "" /\ StatIdValid(a.sp, a.sc) /\ StatIdValid(a.dp, a.dc) /\ a.in >= 0 /\ a.out >= 0 /\ (a.in > 0 \/ a.out > 0)
+  /\ \A i \in DOMAIN g.cnts : LET c == g.cnts[i] IN StatIdValid(c.sp, c.sc) /\ StatIdValid(c.dp, c.dc) /\ c.n > 0
+\* repeated statistics keys: the last entry wins (the setter overwrites)
+LastWins(seq, key(_)) == {seq[i] : i \in {j \in DOMAIN seq : \A k \in DOMAIN seq : k > j => key(seq[k]) # key(seq[j])}}
+GenDoc(s, in) ==
+  LET g == in.g IN
+  IF ~GenValid(g) THEN Res(FALSE, "genesis-invalid", s, NoReq)
+  ELSE Res(TRUE, "", [s EXCEPT !.pProto = ToSet(g.pp),
+                               !.pCC = {<<g.pcc[i].p, g.pcc[i].cp>> : i \in DOMAIN g.pcc},
+                               !.pAct = ToSet(g.pa),
+                               !.maxPT = (IF g.params < 0 THEN BIG ELSE g.params), !.hasParams = TRUE,
+                               !.amt = LastWins(g.amts, AmtKeyOf), !.cnt = LastWins(g.cnts, CntKeyOf)], NoReq)
+
 \* export -> validate -> initialise a fresh module -> export: the identity on the module's state
 Reimport(s, in) == Res(TRUE, "", s, NoReq)
 
@@ -556,6 +585,7 @@ Apply(s, in) ==
     [] in.t = "deposit"  -> Deposit(s, in)
     [] in.t = "env"      -> EnvStep(s, in)
     [] in.t = "reimport" -> Reimport(s, in)
+    [] in.t = "gendoc"   -> GenDoc(s, in)
     [] OTHER             -> Res(TRUE, "", s, NoReq)       \* queries are read-only
 
 -----------------------------------------------------------------------------
@@ -578,8 +608,6 @@ Outcome(pre, r) ==
    supply  |-> [d \in Denom |-> r.st.supply[d] - pre.supply[d]],
    stats   |-> [amt |-> r.st.amt, cnt |-> r.st.cnt]]
 
-CpUniverse == [p \in ProtoNames |-> CASE p = "CCTP" -> {"0", "1", "2"} [] p = "HYP" -> {"1", "2", "3"}
-                                        [] p = "INT" -> {"noble"} [] OTHER -> {"channel-0", "channel-1"}]
 \* what the pause / parameter queries report in state s (they are views, C08/C09/C18)
 QueryView(s) ==
   [ qProto  |-> s.pProto,
@@ -589,6 +617,28 @@ QueryView(s) ==
     qAct    |-> s.pAct,
     isAct   |-> {[p |-> a, ok |-> TRUE, v |-> a \in s.pAct] : a \in ActionNames},
     qParams |-> IF s.hasParams THEN s.maxPT ELSE 0, qParamsOk |-> TRUE ]
+
+DefFwS == [pid |-> "INT", at |-> "INT", dom |-> 0, mint |-> "NONE", caller |-> "NONE", tok |-> "NONE",
+           rcp |-> "NONE", hook |-> "NONE", gas |-> 0, maxfee |-> 0, meta |-> "NONE", to |-> "U", pt |-> 0]
+\* identifier entry points (C20): what each entry point answers for counterparty spelling e
+PidNum(p) == CASE p = "IBC" -> "1" [] p = "CCTP" -> "2" [] p = "HYP" -> "3" [] p = "INT" -> "4" [] OTHER -> "0"
+IdentModel(s, in) ==
+  [i \in DOMAIN in.ids |->
+     LET e == in.ids[i]
+         valid == in.pid \in ProtoNames /\ ValidCp(in.pid, e.chars)
+         run == valid /\ e.dom >= 0 /\ in.pid \in {"CCTP", "HYP"}
+         probe == IF in.pid = "CCTP" THEN [DefFwS EXCEPT !.pid = "CCTP", !.at = "CCTP", !.dom = e.dom, !.mint = "MINT_A"]
+                  ELSE [DefFwS EXCEPT !.pid = "HYP", !.at = "HYP", !.dom = e.dom, !.tok = "T1", !.rcp = "R_A"]
+     IN [cp |-> e.cp, chars |-> e.chars, dom |-> e.dom, newOk |-> valid, id |-> PidNum(in.pid) \o ":" \o e.cp,
+         parseOk |-> valid, parsePid |-> IF valid THEN in.pid ELSE "", parseCp |-> IF valid THEN e.cp ELSE "",
+         pauseOk |-> valid /\ <<in.pid, e.cp>> \notin s.pCC, unpauseOk |-> valid /\ <<in.pid, e.cp>> \notin s.pCC,
+         queryOk |-> valid, statsOk |-> valid, genesisOk |-> valid,
+         probeRun |-> run /\ <<in.pid, e.cp>> \notin s.pCC, probeOk |-> FALSE,
+         ctlOk |-> run /\ <<in.pid, e.cp>> \notin s.pCC
+                   /\ Recv(s, [t |-> "recv", chan |-> 0, rcv |-> "ORB", dn |-> "RET", base |-> "uusdc", amt |-> 1000,
+                               amtc |-> "OK", mk |-> "PAYLOAD", fw |-> probe, acts |-> <<>>, faults |-> <<>>,
+                               aid |-> "", op |-> ""]).ok,
+         listed |-> valid /\ <<in.pid, e.cp>> \notin s.pCC /\ ~\E x \in s.pCC : x[1] = in.pid]]
 
 ModelStep(pre, in) ==
   LET r == Apply(pre, in)
@@ -610,7 +660,9 @@ ModelStep(pre, in) ==
        hasTrace |-> TRUE, perAction |-> r.trace,
        hasQ |-> in.t = "admin",
        q |-> QueryView(r.st),
-       x |-> [exportOk |-> TRUE, validateOk |-> TRUE, initOk |-> TRUE, sameExport |-> TRUE, fullOk |-> TRUE] ]
+       x |-> [exportOk |-> TRUE, validateOk |-> TRUE, initOk |-> TRUE, sameExport |-> TRUE, fullOk |-> TRUE],
+       idres |-> IF in.t = "ident" THEN IdentModel(pre, in) ELSE <<>>,
+       gen |-> [validateOk |-> in.t = "gendoc" /\ GenValid(in.g), initOk |-> in.t = "gendoc" /\ GenValid(in.g)] ]
 
 -----------------------------------------------------------------------------
 (* Behaviour specification                                                 *)
